@@ -107,6 +107,9 @@ def run_case(spec, ctx):
     where = {'config': spec['config'], 'corr': t['corr'], 'n': t['n'], 'd': df.shape[1],
              'marginals': t['marginals'], 'extras': t.get('extras', [])}
     model = mv.build_model(spec['config'], list(df.columns), rng, random_state=int(rng.integers(1 << 30)))
+    if spec['seed'] % 3 == 0 and not t.get('all_constant'):
+        mv.give_past(model, df, rng)          # the instance was fitted on another table and used before
+        where['refitted'] = True
     np.random.seed(spec['seed'] % (2 ** 31))
     ok, exc = ctx.call(model.fit, df.copy())
     if not ok:
